@@ -124,6 +124,23 @@ PROPS = {
         'design_ref': 'DESIGN.md 5 C08',
         'explanation': 'script contracts',
     },
+    'C10': {
+        'modules': ['contracts.c10'],
+        'level': 'other',
+        'trusted_base': COMMON_TB,
+        'assumptions': [
+            'BOUNDED, not proved: bitcoin.base58.encode/decode equal the reference big-integer definition and are mutually inverse (600 generated inputs per run in the quick tier, 6000 in the thorough tier: leading-zero patterns, lengths 0..300, one-character alphabet violations); the hex built-ins (hexlify, int(.,16), %x, unhexlify) they are written with are outside the engine',
+            'the Base58Check layer is proved over the codec as an uninterpreted pair of functions b58enc/b58dec (no inverse property is assumed by the proved units)',
+            'SHA-256 uninterpreted',
+        ],
+        'level_text': 'Proved: CBase58Data.__new__ returns (version, payload) exactly when the decoded string has at least '
+                      'five bytes whose last four equal the checksum of the rest, raises Base58ChecksumError otherwise and '
+                      'InvalidBase58Error for a foreign character, and no other exception; from_bytes range check; __str__ = '
+                      'reference encoding of version+payload+checksum. Bounded: the codec itself (see assumptions).',
+        'level_note': 'trusted: pyvc, z3/cvc5, specs/b58.py; the codec clauses are bounded run-time checks against the executable reference',
+        'design_ref': 'DESIGN.md 5 C10',
+        'explanation': 'Base58Check layer proved over an assumed codec; the codec itself (encode/decode = reference, mutual inverses) is a bounded check',
+    },
     'C15': {
         'modules': ['contracts.c15'],
         'level': 'proof',
